@@ -96,6 +96,14 @@ def rvq_cases(ctx, rng, scale, cases, meta, failures, dist):
             other(torch.randn(2, 4, kw['dim']))
             rvq.load_state_dict(copy.deepcopy(other.state_dict()), **({'assign': True} if ci % 8 == 5 else {}))     # assign=True replaces the tensor objects
             dist['hist_reload'] += 1
+        if ci % 5 == 2 and not shared:
+            # module SURGERY on the live stack: one stage is replaced by another quantizer (a stage tied to / taken from another model); the forward
+            # walks the stack as it is NOW
+            donor = ResidualVQ(**kw)
+            rvq.layers[-1] = donor.layers[-1]
+            if implicit and len(rvq.mlps) and rvq.mlps[-1] is not None:
+                rvq.mlps[-1] = donor.mlps[-1]
+            dist['hist_stage_replaced'] = dist.get('hist_stage_replaced', 0) + 1
         exact = (not proj) and (not cosine) and (not implicit) and rng.random() < 0.5
         if exact:
             for layer in (rvq.layers[:1] if shared else rvq.layers):
